@@ -103,6 +103,30 @@ class B64Rules:
         ok2 = len(self.hex) == 128 and self.hex == inv
         rec.ob('R16.t', 'R16.t@hex_tab', ok2, where, 'hex_tab[c] is the index of c in the alphabet for the 64 symbols and 255 elsewhere (128 entries): %s' % ('yes' if ok2 else 'NO'))
 
+    def locale_fixed(self):
+        """R16.l: the alphabet predicate uses isalnum, whose meaning depends on the global C locale; the exploration above is
+        made for the "C" locale, which is what the process runs in as long as nothing calls setlocale / std::locale::global."""
+        prog, rec = self.prog, self.rec
+        uses_ctype = any(nd['k'] == 'CallExpr' and (nd.get('callee', {}).get('q') or '').split('::')[-1] in ('isalnum', 'isalpha', 'isdigit', 'isupper', 'islower')
+                         for g in prog.functions.values() for nd in walk(g['body']))
+        bad = []
+        for g in prog.functions.values():
+            for nd in walk(g['body']):
+                if nd['k'] in ('CallExpr', 'CXXMemberCallExpr') and (nd.get('callee', {}).get('q') or '') in ('setlocale', 'std::setlocale', 'std::locale::global', 'uselocale'):
+                    a = nd.get('args', [])
+                    lit = None
+                    if len(a) >= 2:
+                        for x in walk(a[1]):
+                            if x['k'] == 'StringLiteral':
+                                lit = x.get('s')
+                    if lit not in ('C', 'POSIX'):
+                        bad.append((g, nd))
+        for g, nd in bad:
+            rec.ob('R16.l', 'R16.l@%s::locale-changed' % fkey(g), False, nloc(nd),
+                   'the global locale is changed here: in an 8-bit locale isalnum() accepts bytes >= 0x80 as key characters (and they index past the decode table)')
+        rec.ob('R16.l', 'R16.l@C-locale', not bad or not uses_ctype, self.alpha_where or '',
+               'character classification (%s) runs in the "C" locale: no call changes the global locale (%d call(s) found)' % ('used by the key validator' if uses_ctype else 'not used', len(bad)))
+
     # ------------------------------------------------------------------ encoder
     def encoder(self):
         prog, rec = self.prog, self.rec
@@ -233,6 +257,31 @@ class B64Rules:
         f = self.val
         REP = {'A': ord('Q'), '=': ord('='), '?': ord('*'), 'H': 0x80, 'Z': 0}
         self.val_oob = []
+        # every character the validator (or a function it calls) compares with gets a class of its own, unless it is a member
+        # of the alphabet: "other ASCII" is uniform only apart from the characters the code singles out
+        extra = ''
+        seen_fn, todo = set(), [f]
+        while todo:
+            g = todo.pop()
+            if g['id'] in seen_fn:
+                continue
+            seen_fn.add(g['id'])
+            for nd in walk(g['body']):
+                if nd['k'] in ('CallExpr',) and nd.get('callee', {}).get('m') in prog.functions:
+                    todo.append(prog.functions[nd['callee']['m']])
+                if nd['k'] == 'BinaryOperator' and nd.get('op') in ('==', '!=', '<', '<=', '>', '>='):
+                    for side in (nd['lhs'], nd['rhs']):
+                        cv = strip(side).get('cv', side.get('cv'))
+                        if isinstance(cv, int) and 0 < cv < 128 and chr(cv) not in ALPHABET and chr(cv) not in '=*' and chr(cv) not in extra and chr(cv).isprintable():
+                            extra += chr(cv)
+                if nd['k'] == 'CaseStmt':
+                    cv = (nd.get('val') or {}).get('cv')
+                    if isinstance(cv, int) and 0 < cv < 128 and chr(cv) not in ALPHABET and chr(cv) not in '=*' and chr(cv) not in extra and chr(cv).isprintable():
+                        extra += chr(cv)
+        extra = ''.join(c for c in extra if c not in 'A?HZ')[:12]
+        for c in extra:
+            REP[c] = ord(c)
+        self.val_extra_classes = extra
         accepted = []
         runs = [0]
 
@@ -263,19 +312,27 @@ class B64Rules:
                 raise AnalysisBroken('validator not deterministic on a concrete string')
             return bool(r[0][1][1]), maxi[0]
 
+        class _Enough(Exception):
+            pass
+
         def dfs(prefix):
             if len(prefix) == 24:
                 acc, _ = run(prefix)
                 if acc:
                     accepted.append(prefix)
+                    if len(accepted) > 32:
+                        raise _Enough()     # far more than the one shape the property allows: no need to list them all
                 return
-            for ch in 'A=?H':
+            for ch in 'A=?H' + extra:
                 p = prefix + ch
                 acc, last = run(p + 'A' * (24 - len(p)))
                 if not acc and last < len(p):
                     continue        # rejected while still inside the prefix: every extension is rejected
                 dfs(p)
-        dfs('')
+        try:
+            dfs('')
+        except _Enough:
+            pass
         # other lengths are rejected outright (length test does not look at the characters)
         lens_ok = all(not run('A' * 22 + '==' if ln == 24 else ('A' * max(0, ln - 2) + '==')[:ln], ln)[0] for ln in (0, 4, 8, 12, 16, 20, 23, 25, 28, 32) if ln != 24)
         return accepted, runs[0], lens_ok
@@ -294,7 +351,7 @@ class B64Rules:
                'no constant table is subscripted out of range while validating (classes: alphabet, "=", other ASCII, bytes >= 0x80): %s' % (
                    'yes' if not self.val_oob else 'NO: index %d of a %d-entry table for a string with a byte >= 0x80' % self.val_oob[0][1]))
         rec.ob('R16.a', 'R16.a@%s::accepts-exactly-22-symbols-and-two-pads' % fkey(self.val), ok, '%s:%s' % (self.val['file'], self.val['line']),
-               'accepted 24-character shapes (A = alphabet symbol, ? = other ASCII, H = byte >= 0x80): %s; other lengths rejected: %s (%d validator evaluations)' % (shapes[:6], lens_ok, runs))
+               'accepted 24-character shapes (A = alphabet symbol, ? = other ASCII, H = byte >= 0x80, and one class per character the code compares with: %r): %s; other lengths rejected: %s (%d validator evaluations)' % (getattr(self, 'val_extra_classes', ''), shapes[:6], lens_ok, runs))
         # decoder on every accepted shape: bytes written and table indices
         worst = 0
         det = []
@@ -303,7 +360,7 @@ class B64Rules:
             I.concrete_loops = True
             st = interp.State()
             for i, ch in enumerate(s):
-                st.mem[(IN, (i,))] = C({'A': ord('Q'), '=': ord('='), '?': ord('*'), 'H': 0x80}[ch])
+                st.mem[(IN, (i,))] = C({'A': ord('Q'), '=': ord('='), '?': ord('*'), 'H': 0x80}.get(ch, ord(ch)))
             idxs = []
 
             class Lst:
